@@ -78,28 +78,3 @@ func verifH_C01_archive_lookup() {
 	}
 	verifReach("end")
 }
-
-// H-C10-archive-index: the same search over an index with ARBITRARY content (prefixes not sorted, span ends not
-// monotone, references out of range: what a corrupted archive gives the reader): no panic, the search terminates, and a
-// reported hit is an entry that really carries the probed address.
-func verifH_C10_archive_index() {
-	verifPanicIsViolation()
-	verifUnwind(64)
-	n := verifConcrete(verifNondetIntRange("n", 0, verifBoundArchive), 8)
-	idx, addrs := verifArchiveIndex(n, false)
-	count := verifNondetU32("footer-chunk-count") // the footer is corrupt too: any count
-	ar := &archiveReader{indexReader: idx, footer: archiveFooter{chunkCount: count, byteSpanCount: uint32(n + 1)}}
-	h := verifNondetHash("probe")
-	got := ar.findIndex(h)
-	if verifAnd(got >= 0, got < n) {
-		verifAssert(addrs[got] == h, "hit-carries-the-address")
-	}
-	if got >= n {
-		// beyond the index: the accessors return zeroes rather than reading out of range
-		d, dt := ar.getChunkRef(got)
-		verifAssert(verifAnd(d == 0, dt == 0), "out-of-range-entry-has-no-refs")
-	}
-	id := verifNondetU32("span-id")
-	_ = ar.getByteSpanByID(id)
-	verifReach("end")
-}
